@@ -5,7 +5,7 @@ from props._visit_once import recv_fields, gated_by_insert
 TECHNIQUE = "test-and-set gating rule over MIR: every descent into / report about an object is dominated by a successful seen.insert of the same id and unreachable from its `already seen` edge"
 EXPLANATION = ("gix_fsck::Connectivity: loading a commit (find_commit), descending into a tree (check_tree) and checking a blob (check_blob) are each dominated by "
                "`seen.insert(id)` on the same binding and unreachable from its false edge, so an object reachable through many paths is examined and reported at most "
-               "once; sub-trees are queued ungated but gated when popped. Equality with `git fsck --connectivity-only` is not decided.")
+               "once; sub-trees are queued ungated but gated when popped. The dispatch on the entry mode is evaluated for all 65536 mode values (interval abstract interpretation with masked comparisons, EntryMode helpers inlined): regular files and symlinks reach check_blob, directories the tree queue, gitlinks neither. Equality with `git fsck --connectivity-only` is not decided.")
 
 
 def run(db, chk):
@@ -27,3 +27,55 @@ def run(db, chk):
     # the missing callback is invoked only from check_tree (missing tree) and check_blob
     rep = sorted({f.name for f in db.by_crate["gix_fsck"] if f.kind != "promoted" for c in f.calls() if ("ind" in c.callee or c.is_(r"ops::function::FnMut.*::call_mut$")) })
     chk.ob("report-sites", "functions invoking the missing-object callback", set(rep) <= {ct.name, cb.name} and bool(rep), str(rep), key="report-sites")
+    kind_dispatch_rule(db, chk)
+
+
+def kind_dispatch_rule(db, chk):
+    """every entry of a tree is followed according to its type: in the loop of check_tree the entry mode (a u16) decides where the entry goes.
+    AI-int over all 65536 mode values (EntryMode helpers inlined, `x & mask == c` tests split exactly): modes whose type bits are regular file
+    (0o100000) or symlink (0o120000) must reach check_blob, directories (0o040000) must be queued (or checked) as trees, and gitlinks (0o160000)
+    must reach neither - their commit lives in another repository."""
+    from gx import aiint
+    f = db.one(r"^gix_fsck::Connectivity::<T, F>::check_tree$")
+    fl = Flow(f)
+    nxt = [c for c in f.calls() if c.is_(r"iterator::Iterator>?::next$") and "EntryRef" in (c.callee.get("targs", "") + c.callee.get("self", ""))]
+    blob = f.calls_to(r"^gix_fsck::check_blob$")
+    tree = [c for c in f.calls() if c.is_(r"VecDeque::<T, A>::push_back$|VecDeque<T, A>>::push_back$|::push$|Connectivity::<T, F>::check_tree$")]
+    chk.floor("check_tree: entry loop / check_blob / tree queue", min(len(nxt), len(blob), len(tree)), 1)
+    if not (nxt and blob and tree):
+        return
+    some = [t for _, t in fl.result_edges(nxt[0])["good"]]
+    if len(some) != 1:
+        chk.anchor_lost("check_tree: body of the entry loop")
+        return
+    stops = {nxt[0].block: "next"}
+    for c in blob:
+        stops[c.block] = "blob"
+    for c in tree:
+        stops[c.block] = "tree"
+
+    def resolve(nm):
+        r = [g for g in db.fns if g.kind != "promoted" and g.name == nm] if not isinstance(db.fns, dict) else ([db.fns[nm]] if nm in db.fns else [])
+        return r[0] if len(r) == 1 and r[0].crate.startswith("gix_") else None
+    is_mode = lambda p: len(p) >= 2 and (p[-1] == ".mode" or p[-2:] == [".mode", ".0"])
+    try:
+        pw = aiint.piecewise(f, is_mode, 0, 0xFFFF, resolve=resolve, start=some[0], stop=set(stops), observe="stop", fork_unknown=True)
+    except aiint.Unsupported as e:
+        chk.ob("entry-kind-dispatch", "check_tree", False, "dispatch on the entry mode not evaluable: %s" % e, "%s" % f.file, key="kind-dispatch|unsupported")
+        return
+    reach = {}
+    for a, b, v in pw:
+        for ty in (0o040000, 0o100000, 0o120000, 0o160000):
+            lo, hi = max(a, ty), min(b, ty + 0o7777)
+            if lo <= hi:
+                reach.setdefault(ty, set()).add(stops.get(v, "?"))
+    chk.set("mode_pieces", len(pw))
+    want = {0o040000: {"tree"}, 0o100000: {"blob"}, 0o120000: {"blob"}, 0o160000: {"next"}}
+    names = {0o040000: "directory", 0o100000: "regular file", 0o120000: "symlink", 0o160000: "gitlink"}
+    for ty, w in want.items():
+        got = reach.get(ty, set())
+        # the blob arm is left through `next` as well when the id was seen before: that is the de-duplication, not a skipped kind
+        ok = (w <= got) and got <= (w | {"next"}) if w != {"next"} else got == {"next"}
+        chk.ob("entry-kind-dispatch", "check_tree mode %06o (%s)" % (ty, names[ty]), ok,
+               "entries of this type go to %s, expected %s: %s" % (sorted(got), sorted(w), "missing objects of this kind are never reported" if not (w <= got) else "objects are looked up as the wrong kind"),
+               "%s:%d" % (f.file, nxt[0].line), key="kind-dispatch|%06o" % ty)
